@@ -83,6 +83,14 @@ fn main() {
         let _ = rayon::ThreadPoolBuilder::new().num_threads(t).build_global();
     }
     util::set_tiny(args.iter().any(|a| a == "--tiny"));
+    if cmd == "dump-seeds" {
+        let dir = PathBuf::from(arg(&args, "--dir").unwrap_or_default());
+        match arg(&args, "--kind").as_deref() {
+            Some("frame") => c12::dump_seeds(&dir, seed),
+            _ => c20::dump_seeds(&dir, seed),
+        }
+        return;
+    }
     let t0 = std::time::Instant::now();
     let rep = match cmd.as_str() {
         "c01" => c01::run(seed, thorough, cases, &work, &stage),
@@ -93,6 +101,8 @@ fn main() {
         "c18" => c18::run(seed, thorough, cases),
         "c19" => c19::run(seed, thorough, cases),
         "c20" => c20::run(seed, thorough, cases, &work, &stage),
+        "replay-decode" => c20::replay_files(&PathBuf::from(arg(&args, "--dir").unwrap_or_default())),
+        "replay-frame" => c12::replay_files(&PathBuf::from(arg(&args, "--dir").unwrap_or_default())),
         other => {
             eprintln!("unknown subcommand {other:?}");
             std::process::exit(2);
